@@ -131,14 +131,26 @@ def snippet(hist):
     return '\n'.join(lines)
 
 
+def small_alphabet():
+    ops = []
+    for c in (b'A', b'BC', b''):
+        for p in range(5):
+            ops.append(('insert', p, c))
+    for c in (b'A', b'BC', b''):
+        ops.append(('append', c))
+    ops.append(('extend', [b'A', b'']))
+    ops.append(('extend', [b'', b'BC']))
+    return ops
+
+
 def _shard(shard, nshards, payload):
     from bisturi.fragments import Fragments
     depth = payload['depth']
-    ops = alphabet()
+    ops = alphabet() if not payload.get('small') else small_alphabet()
     st = Stats()
     idx = 0
     # iterative deepening so that the first violation per signature is the shortest
-    for d in range(1, depth + 1):
+    for d in range(payload.get('mindepth', 1), depth + 1):
         for hist in itertools.product(ops, repeat=d):
             idx += 1
             if idx % nshards != shard:
@@ -167,6 +179,11 @@ def _shard(shard, nshards, payload):
 def run(tier):
     depth = 3 if tier == 'quick' else 4
     st = common.merge_all(common.run_sharded(_shard, {'depth': depth}))
+    deep = None
+    if tier == 'thorough':
+        # one level deeper over a reduced alphabet (positions 0..4, chunks of length 0..2): 20 operations, depth 5
+        deep = common.merge_all(common.run_sharded(_shard, {'depth': 5, 'mindepth': 5, 'small': True}))
+        st.merge(deep)
     if not st.samples:
         st.sample({'history': [['insert', 2, b'BC'], ['append', b'A']], 'note': 'first histories of the enumeration'})
     nops = len(alphabet())
@@ -179,7 +196,8 @@ def run(tier):
         'rule': 'all operation histories of length 1..%d over %d operations (insert at 0..6 of 4 chunks incl. the empty one, append x4, '
                 'extend x4), each executed on a fresh real Fragments; distinct = canonical (sparse map, extent, cursor)' % (depth, nops),
         'exhaustive': True,
-        'bounds': {'depth': depth, 'operations': nops, 'positions': '0..6', 'chunks': [c.decode() for c in CHUNKS]},
+        'bounds': {'depth': depth, 'operations': nops, 'positions': '0..6', 'chunks': [c.decode() for c in CHUNKS],
+                   'extra': 'depth 5 over 20 operations (positions 0..4, chunks of length 0..2)' if deep is not None else None},
         'distinct_outcomes': st.count('outcomes'),
         'samples': st.samples,
         'explanation': 'every explored history IS an execution of the implementation; the model is a dict position->byte',
